@@ -369,10 +369,46 @@ func TestVF_Concurrent(t *testing.T) {
 		}
 	}
 	c3.w.close()
+	// ---- (4) a token endpoint behind a gateway that redirects and keeps each transaction in a cookie: the code exchanges
+	// and refreshes of many browsers overlap; every browser must still get its OWN provider answer
+	c4 := vfNewConc(t, 7200)
+	c4.w.prov.mu.Lock()
+	c4.w.prov.txnRedirect, c4.w.prov.txnWait = true, 25*time.Millisecond
+	c4.w.prov.mu.Unlock()
+	var wg4 sync.WaitGroup
+	stop4 := time.Now().Add(time.Duration(vfEnvInt("VERIF_TXN_MS", 1500)) * time.Millisecond)
+	for i := 0; i < 10; i++ {
+		wg4.Add(1)
+		go func(i int) {
+			defer wg4.Done()
+			b := &vfConcBrowser{email: fmt.Sprintf("txn%d@example.com", i), jar: map[string]string{}}
+			for n := 0; time.Now().Before(stop4); n++ {
+				if !c4.login(b, fmt.Sprintf("/t%d/start/%d", i, n)) {
+					c4.violate("%s: a complete login did not end in a session although the provider (token endpoint behind redirects) is healthy", b.email)
+					return
+				}
+				for j := 0; j < 3 && time.Now().Before(stop4); j++ {
+					if r := c4.get(b, fmt.Sprintf("/t%d/page/%d", i, j)); r.Code != 200 {
+						c4.violate("%s: authenticated request answered %d (token endpoint behind redirects)", b.email, r.Code)
+					}
+				}
+				b.jar = map[string]string{}
+			}
+		}(i)
+	}
+	fin4 := make(chan struct{})
+	go func() { wg4.Wait(); close(fin4) }()
+	select {
+	case <-fin4:
+	case <-time.After(40 * time.Second):
+		c4.violate("deadlock: browsers did not finish (token endpoint behind redirects)")
+	}
+	c4.w.close()
+	res["txn_redirect_requests"] = atomic.LoadInt64(&c4.nreq)
 	res["jwks_refetch_rounds"] = jwksRounds
 	res["stress_requests"] = atomic.LoadInt64(&c2.nreq)
 	res["stress_browsers"] = nb
-	res["violations"] = append(append(append([]string{}, c.viol...), c2.viol...), c3.viol...)
+	res["violations"] = append(append(append(append([]string{}, c.viol...), c2.viol...), c3.viol...), c4.viol...)
 	b, _ := json.Marshal(res)
 	vfWriteJSON(t, "concurrent.json", json.RawMessage(b))
 }
